@@ -67,7 +67,14 @@ func stores(args map[string]string) error {
 				if s := rc.GetStore(sid(i)); s != nil {
 					served = append(served, stateOf(s))
 				}
-				peers = append(peers, rc.GetStoreRegionCount(sid(i)))
+				// counted from the served regions themselves (any role), not from the per-store counters the burial job uses
+				cnt := 0
+				for _, r := range rc.GetRegions() {
+					if r.GetStorePeer(sid(i)) != nil {
+						cnt++
+					}
+				}
+				peers = append(peers, cnt)
 			}
 			bc := core.NewBasicCluster()
 			if err := pd.S.GetStorage().LoadStores(bc.PutStore); err != nil {
@@ -95,6 +102,10 @@ func stores(args map[string]string) error {
 			meta := &metapb.Region{Id: id, StartKey: []byte(fmt.Sprintf("b%05d-s%d-%d", bi, i, n)), EndKey: []byte(fmt.Sprintf("b%05d-s%d-%d~", bi, i, n)),
 				RegionEpoch: &metapb.RegionEpoch{Version: 1, ConfVer: uint64(regionVer[i*10+n])},
 				Peers:       []*metapb.Peer{{Id: id*10 + 1, StoreId: on}}}
+			if (i+n+regionVer[i*10+n])%3 == 0 {
+				// the peer on the store is a learner; the leader is a voter on the bootstrap store (store 1, outside the model)
+				meta.Peers = []*metapb.Peer{{Id: id*10 + 2, StoreId: 1}, {Id: id*10 + 1, StoreId: on, Role: metapb.PeerRole_Learner}}
+			}
 			r := core.RegionFromHeartbeat(&pdpb.RegionHeartbeatRequest{Region: meta, Leader: meta.Peers[0], Term: 1})
 			return pd.S.GetRaftCluster().VerifProcessRegionHeartbeat(r)
 		}
